@@ -37,6 +37,11 @@ Inductive out :=
 (** The two comparators the harness uses (generic.NewCompareFunc[int] and its inverse). *)
 Definition cmp_min (a b : Z) : Z := match a ?= b with Lt => -1 | Eq => 0 | Gt => 1 end.
 Definition cmp_max (a b : Z) : Z := cmp_min b a.
+(** comparators that return magnitudes (the contract of generic.CompareFunc is only
+    negative / zero / positive): a - b, 3 * (a - b) and the reversed b - a *)
+Definition cmp_sub (a b : Z) : Z := a - b.
+Definition cmp_sub3 (a b : Z) : Z := 3 * (a - b).
+Definition cmp_rsub (a b : Z) : Z := b - a.
 
 (** Checked slice access. *)
 Definition getR {A} (l : list A) (i : Z) : res A :=
